@@ -455,6 +455,7 @@ def monitor(sc, views, known_hit=None):
     ro_lost = False     # the owner is suspended and the topic was (re)loaded since: the read-only bit is gone (known finding)
     rows = p2p_rows(sc)
     p_lost = {}         # p2p topic -> why it is writable although a party is suspended ("reload" | "peer"): known findings
+    win_fault = "N"     # fault plan of the held {del topic}: a request other than {pub} to the group topic first lets it finish
     for k, v in enumerate(views):
         fault, kind, args = sc.ops[k]
         x = X(v)
@@ -462,6 +463,10 @@ def monitor(sc, views, known_hit=None):
         actor = sc.sessions.get(sid) if sid is not None else None
         mine = [t for s, t in v.frames if s == sid and t.startswith("ctrl ")] if sid is not None else []
         acked = bool(mine) and mine[0].startswith("ctrl 202")
+        if kind == "delbegin":
+            win_fault = fault
+        # the held delete finishes first, and its plan is a crash: the request is served by a restarted process
+        crashed_first = px is not None and px.window and kind not in ("pub", "delend") and win_fault[0] == "C"
 
         def known(law, detail):
             if known_hit is not None:
@@ -530,6 +535,8 @@ def monitor(sc, views, known_hit=None):
             kk = args[1]
             p, q = px.p2p[kk], x.p2p[kk]
             want, given = rows[kk][2][actor]
+            if crashed_first:
+                p = dict(p, loaded=False, ro=False, sess=set(), users={}, lastid=p["seqid"])
             attached = p["loaded"] and sid in p["sess"]
             writer = "W" in eff(want, given)
             expect = attached and writer and not p["ro"]
@@ -561,7 +568,7 @@ def monitor(sc, views, known_hit=None):
         elif prev is not None and kind == "pubsys":
             if acked:
                 n = int(kvs(mine[0]).get("seq", "-1"))
-                if n != px.sys_lastid + 1:
+                if n != (px.sys_seqid if crashed_first else px.sys_lastid) + 1:
                     res.append(("accepted-stored", k, "message to sys acknowledged as %d, previous was %d" % (n, px.sys_lastid)))
                 if fault == "N" and x.sysmsgs.get(n) != (actor, str(args[1])):
                     res.append(("accepted-stored", k, "message %d to sys not stored as published: %s" % (n, x.sysmsgs.get(n))))
@@ -570,7 +577,7 @@ def monitor(sc, views, known_hit=None):
                     res.append(("sys-publish-rejected", k, "publish to sys by logged-in session %d (not attached) answered %s" % (sid, mine)))
                 if not mine or int(mine[0].split()[1]) < 400:
                     res.append(("rejected-gets-error-reply", k, "rejected publish to sys answered %s" % mine))
-                if set(x.sysmsgs) != set(px.sysmsgs) or x.sys_lastid != px.sys_lastid and fault[0] != "C":
+                if set(x.sysmsgs) != set(px.sysmsgs) or x.sys_lastid != px.sys_lastid and fault[0] != "C" and not crashed_first:
                     res.append(("rejected-no-effect", k, "rejected publish to sys stored something or consumed a number"))
                 if [t for s, t in v.frames if not (s == sid and t.startswith("ctrl "))]:
                     res.append(("rejected-no-effect", k, "rejected publish to sys produced frames"))
